@@ -282,9 +282,19 @@ static void t_describe(sbuf *b, const tree_state *st)
   }
 }
 
+/* when the caller hands RELATIVE directories to the library (cwd = t_rel_base), the exact path of a consulted file is the
+ * relative one: expected strings are t_path[] without this prefix */
+static const char *t_rel_base;
+static void t_expected_path(int id, char *out, size_t cap)
+{
+  const char *p = t_path[id];
+  if (t_rel_base && !strncmp(p, t_rel_base, strlen(t_rel_base))) { p += strlen(t_rel_base); while (*p == '/') p++; }
+  t_collapse(p, out, cap);
+}
 static int t_id_of_path(const char *path)
 {
   char a[700], b[700]; t_collapse(path, a, sizeof a);
+  for (int id = 0; id < ts.nfiles; id++) { t_expected_path(id, b, sizeof b); if (!strcmp(a, b)) return id; }
   for (int id = 0; id < ts.nfiles; id++) { t_collapse(t_path[id], b, sizeof b); if (!strcmp(a, b)) return id; }
   return -1;
 }
@@ -304,11 +314,11 @@ static int t_compare_log(const tree_cblog *log, const int *list, int nlist, sbuf
     size_t gl = strlen(got);
     if ((gl >= 2 && !strcmp(got + gl - 2, "/.")) || (gl >= 3 && !strcmp(got + gl - 3, "/.."))) continue;
     if (li >= nlist) { sb_printf(why, "callback was asked about %s which is not in the reference processing list", got); return 1; }
-    char want[700]; t_collapse(t_path[list[li]], want, sizeof want);
+    char want[700]; t_expected_path(list[li], want, sizeof want);
     if (strcmp(got, want)) { sb_printf(why, "callback call %d was for %s, reference processing list has %s there", i, got, want); return 1; }
     li++;
   }
-  if (li != nlist) { char want[700]; t_collapse(t_path[list[li]], want, sizeof want); sb_printf(why, "callback was never asked about %s", want); return 1; }
+  if (li != nlist) { char want[700]; t_expected_path(list[li], want, sizeof want); sb_printf(why, "callback was never asked about %s", want); return 1; }
   return 0;
 }
 
